@@ -1700,7 +1700,7 @@ fn fuzz_stage(seed: u64, res: &mut ExtraResult, info: &mut serde_json::Map<Strin
                     let _ = std::fs::create_dir_all(&work);
                     let art = fdir.join("artifacts").join(&t);
                     let _ = std::fs::create_dir_all(&art);
-                    let o = Command::new("cargo")
+                    let o = crate::engine::unlimited(&mut Command::new("cargo"))
                         .current_dir(&hdir)
                         .args(["+nightly", "fuzz", "run", "-O", "--fuzz-dir", fdir.to_str().unwrap_or("fuzz"), &t, work.to_str().unwrap(), corpus.to_str().unwrap(), "--"])
                         .arg(format!("-seed={}", (seed.wrapping_add(j) % 4_000_000_000).max(1)))
